@@ -3,6 +3,7 @@
   ONLY property theorems and non-vacuity examples; helper lemmas are in Proofs/Lemmas/Hmac.lean.
 -/
 import Proofs.Lemmas.Hmac
+import Proofs.Lemmas.HmacAlgs
 namespace Proofs.C13
 open Model Model.Hmac
 
@@ -44,6 +45,16 @@ theorem setkey_seq (h : HashFn) (o : Hmac) (ks : List (List Nat)) (k m : List Na
     (do let o' ← (ks.foldlM (fun (o : Hmac) k => o.setkey h k) o); let o'' ← o'.setkey h k; o''.call h m)
       = (do let _ ← (ks.foldlM (fun (o : Hmac) k => o.setkey h k) o); Hmac.hmac h o.blocksize k m) :=
   Lemmas.Hmac.setkey_seq h o ks k m
+
+/-- **hmac_refines_library.**  Instantiation for the hash objects of the library covered by C01 (MD4, MD5, SHA-0, SHA-1,
+    SHA-224/256/384/512, SHA-512/224, SHA-512/256): `HMAC(h,key)(msg)` with the model of the real hash object equals
+    RFC 2104 over the *standard* hash function (`specFn alg` = the Lean formalisation of RFC 1320/1321/FIPS 180-4 on
+    byte strings), for every key and message (byte values below 256).  Uses C01's `hash_refines`. -/
+theorem hmac_refines_library (alg : Model.Alg) (key msg : List Nat)
+    (hkey : ∀ x ∈ key, x < 256) (hmsg : ∀ x ∈ msg, x < 256) :
+    Hmac.hmac (fun m => Model.hash alg m none) (8 * alg.blocklen) key msg
+      = .ok (Spec.rfc2104 (Lemmas.HmacAlgs.specFn alg) alg.blocklen key msg) :=
+  Lemmas.HmacAlgs.hmac_alg alg key msg hkey hmsg
 
 /-! non-vacuity: the hypotheses hold for a non-trivial instance (a 2-byte "digest", 4-byte block, 6-byte key) -/
 example : ∃ (H : List Nat → List Nat) (B : Nat) (key : List Nat), 0 < B ∧ B < key.length ∧ (B < key.length → (H key).length ≤ B) :=
